@@ -407,6 +407,10 @@ func init() {
 	def(WDomain, KindInfo{Slots: "S", Name: "errors.WithDomain", Arity: Wrap, Groups: GLib | GAnnot,
 		build: func(n *Node, k, _ []error) error {
 			if n.S[0].V == "" {
+				if n.S[0].Neutral {
+					// a zero-value domain
+					return errors.WithDomain(k[0], errors.Domain(""))
+				}
 				// an explicit "no domain" annotation
 				return errors.WithDomain(k[0], errors.NoDomain)
 			}
